@@ -184,6 +184,23 @@ def assignedBlock : List Stmt → Option VSet
     | _, _ => none
 end
 
+mutual
+/-- Every name a statement may bind, at any depth (assignment targets and `for` variables); total, unlike
+`assignedStmt`. -/
+def targetsStmt : Stmt → List Name
+  | .assign x _ => [x]
+  | .par xs _ => xs
+  | .tuple xs _ => xs
+  | .badAssign xs _ => xs
+  | .ite _ t e => targetsBlock t ++ targetsBlock e
+  | .for_ i _ _ body => i :: targetsBlock body
+  | .while_ _ body => targetsBlock body
+  | _ => []
+def targetsBlock : List Stmt → List Name
+  | [] => []
+  | s :: ss => targetsStmt s ++ targetsBlock ss
+end
+
 /-- `while curr != prev: prev = curr; curr = step prev` — with fuel (two rounds always
 suffice for the gen/kill-shaped `step`s that arise; the fuel is never the reason to stop on
 any generated program, which the correspondence check would expose). -/
